@@ -4,3 +4,5 @@ import SmtpV.Props.C19
 #print axioms SmtpV.Props.C19.C19_long_line_refused
 #print axioms SmtpV.Props.C19.C19_error_threshold
 #print axioms SmtpV.Props.C19.C19_tripped_ends_commands
+#print axioms SmtpV.Props.C19.C19_resume_short_ok
+#print axioms SmtpV.Props.C19.C19_resume_counts_pending
